@@ -32,7 +32,12 @@ pub enum Found {
     Unique(Deriv),
     NoDerivation,
     Ambiguous,
+    /// the search exceeded its work budget (nothing is concluded for this input)
+    TooComplex,
 }
+
+/// bound on the number of search steps per input
+const WORK_LIMIT: u64 = 400_000;
 
 struct Ctx<'a> {
     g: &'a Grammar,
@@ -94,6 +99,9 @@ impl<'a> Ctx<'a> {
 
     fn seq(&mut self, alt: &'a Alt, idx: usize, i: usize, j: usize) -> Vec<Deriv> {
         self.work += 1;
+        if self.work > WORK_LIMIT {
+            return vec![];
+        }
         if idx == alt.len() {
             return if i == j { vec![Deriv::default()] } else { vec![] };
         }
@@ -189,6 +197,9 @@ impl<'a> Ctx<'a> {
     /// all ways to split i..j into items of the repetition body: (item count, concatenated events)
     fn rep(&mut self, a: &'a Alts, i: usize, j: usize) -> Vec<(usize, Deriv)> {
         self.work += 1;
+        if self.work > WORK_LIMIT {
+            return vec![];
+        }
         let mut r = vec![];
         if i == j {
             r.push((0, Deriv::default()));
@@ -235,6 +246,9 @@ pub fn derive(g: &Grammar, ig: &IGrammar, ids: &[usize]) -> Found {
     let mut c = Ctx { g, ig, rules, ids, chart, memo: HashMap::new(), active: HashSet::new(), cyclic: false, cuts: 0, work: 0 };
     let Some(a) = c.rules.get(g.start.as_str()).copied() else { return Found::NoDerivation };
     let mut r = c.alts(a, 0, ids.len());
+    if c.work > WORK_LIMIT {
+        return Found::TooComplex;
+    }
     if c.cyclic || r.len() > 1 {
         return Found::Ambiguous;
     }
